@@ -4,7 +4,7 @@ import sys, importlib, os, json
 sys.path.insert(0, os.path.dirname(os.path.dirname(os.path.abspath(__file__))))
 from lib import report as R, facts as FA, selfval, extract as X
 import subprocess, shutil
-patch=sys.argv[1]
+patch=os.path.abspath(sys.argv[1])
 d = selfval.scratch_copy(X.REPO)
 r = subprocess.run(["git","apply","--whitespace=nowarn",patch],cwd=d,capture_output=True,text=True)
 if r.returncode: print(patch,'NOAPPLY'); shutil.rmtree(d,ignore_errors=True); sys.exit(0)
